@@ -254,3 +254,38 @@ Theorem width_recovered_refuted :
     -2147483648 <= w - nom < 2147483648 /\ M_width_roundtrip_old def nom w <> w.
 Proof. exact width_old_refuted. Qed.
 Print Assumptions width_recovered_refuted.
+
+(* ---------- predefined charsets; the DICT decoder as a whole ---------- *)
+From C13 Require Import Spec Proofs_misc.
+Local Open Scope N_scope.
+
+(* The glyph-name tables of the three predefined charsets in cff/charset.go,
+   resolved through the standard strings of cff/strings.go (391 of them), are
+   exactly the SID lists of Appendix C of the specification; a font using
+   charset id 0, 1 or 2 gets the first nGlyphs entries and is rejected when it
+   has more glyphs than the table. *)
+Theorem predefined_charsets_match_spec :
+  forall id n,
+    M_predefined_charset id n =
+    let table := if id =? 0 then S_isoadobe_charset
+                 else if id =? 1 then S_expert_charset else S_expertsubset_charset in
+    if lenN table <? n then Err else Ok (takeN table n).
+Proof. exact predefined_charset_spec. Qed.
+Print Assumptions predefined_charsets_match_spec.
+
+(* decodeDict never panics and its loop always terminates, on any bytes. *)
+Theorem dict_decode_total :
+  forall nstr buf,
+    M_dict_decode_top nstr buf <> Panic /\ M_dict_decode_top nstr buf <> OutOfFuel.
+Proof. exact Proofs_misc.dict_decode_total. Qed.
+Print Assumptions dict_decode_total.
+
+(* A DICT entry with any number of int32 operands (BlueValues deltas, offsets,
+   sizes ...) under a one-byte operator is read back as the same operands. *)
+Theorem dict_ints_roundtrip :
+  forall (vs : list Z) (op nstr : N),
+    Forall (fun a => (-2147483648 <= a <= 2147483647)%Z) vs ->
+    op <= 21 -> op <> 12 -> op_is_string op = false ->
+    M_dict_decode_top nstr (ints_dict vs op) = Ok [(op, map DInt vs)].
+Proof. intros. apply ints_dict_decode; assumption. Qed.
+Print Assumptions dict_ints_roundtrip.
